@@ -135,3 +135,55 @@ def assumed(st: State, cond_key_part: str) -> Optional[bool]:
 
 def facts_with(st: State, text: str):
     return [(k, tr) for k, tr, ln in st.trail if text in k]
+
+
+# ---------------------------------------------------------------------------
+# alternative shape of the final pick:  key = min|max(<feasible keys>, key=<criterion>)
+# ---------------------------------------------------------------------------
+
+def argopt_final_pick(fn: ast.FunctionDef):
+    """recognise   <feasible> = {k: v for k, v in self.calculated_temperatures.items() if v <= 0}  (or a list of keys)
+                   <key> = min|max(<feasible>, key=<criterion>)
+    -> dict(node, func, filter_ok, criterion) or None.  criterion in {'size', 'excess', 'index', 'unknown'}"""
+    from ..model import walk_no_nested
+
+    defs = {}
+    for s_ in walk_no_nested(fn):
+        if isinstance(s_, ast.Assign) and len(s_.targets) == 1 and isinstance(s_.targets[0], ast.Name):
+            defs.setdefault(s_.targets[0].id, []).append(s_)
+    for s_ in walk_no_nested(fn):
+        if not (isinstance(s_, ast.Assign) and isinstance(s_.value, ast.Call) and attr_chain(s_.value.func) in ("min", "max") and s_.value.args):
+            continue
+        call = s_.value
+        src = call.args[0]
+        comp = src
+        if isinstance(src, ast.Name) and src.id in defs:
+            comp = defs[src.id][-1].value
+        if not isinstance(comp, (ast.DictComp, ast.ListComp, ast.GeneratorExp, ast.SetComp)):
+            continue
+        gens = comp.generators
+        if len(gens) != 1 or "self.calculated_temperatures" not in ast.unparse(gens[0].iter):
+            continue
+        # names bound by the generator: (key, value) of .items(), or value of .values()
+        tgt = gens[0].target
+        names = [e.id for e in tgt.elts] if isinstance(tgt, ast.Tuple) else [tgt.id]
+        val_name = names[-1] if ".items()" in ast.unparse(gens[0].iter) or ".values()" in ast.unparse(gens[0].iter) else None
+        filter_ok = False
+        for t in gens[0].ifs:
+            if isinstance(t, ast.Compare) and len(t.ops) == 1:
+                l, op, r = t.left, t.ops[0], t.comparators[0]
+                z = lambda x: isinstance(x, ast.Constant) and isinstance(x.value, (int, float)) and x.value == 0  # noqa: E731
+                lhs = ast.unparse(l)
+                if (isinstance(op, (ast.Lt, ast.LtE)) and z(r) and (lhs == val_name or lhs.startswith("self.calculated_temperatures["))) or \
+                        (isinstance(op, (ast.Gt, ast.GtE)) and z(l) and (ast.unparse(r) == val_name or ast.unparse(r).startswith("self.calculated_temperatures["))):
+                    filter_ok = True
+        kw = {k.arg: k.value for k in call.keywords}
+        crit = "index" if "key" not in kw else "unknown"
+        if "key" in kw:
+            ktxt = ast.unparse(kw["key"])
+            if "len(self.coordinates_domain[" in ktxt:
+                crit = "size"
+            elif ktxt.endswith(".get") or "calculated_temperatures" in ktxt or "abs(" in ktxt:
+                crit = "excess"
+        return {"node": s_, "func": attr_chain(call.func), "filter_ok": filter_ok, "criterion": crit, "target": s_.targets[0].id if isinstance(s_.targets[0], ast.Name) else None}
+    return None
